@@ -914,6 +914,8 @@ pub proof fn lemma_bal_write_allow(s: Raw, a: Seq<char>, v: Seq<u8>)
     }
 }
 
+pub mod m_c01_step {
+use super::*;
 // serves: C01
 /// C01, per step: the supply moves only at mint / burn, by exactly the amount, together with exactly one balance
 pub proof fn lemma_c01_step(s: Raw, t: Raw, sender: Seq<char>, b: &BlockInfo, msg: Cw20ExecuteMsg)
@@ -955,6 +957,10 @@ pub proof fn lemma_c01_step(s: Raw, t: Raw, sender: Seq<char>, b: &BlockInfo, ms
     }
 }
 
+} // mod m_c01_step
+pub use m_c01_step::*;
+pub mod m_c02_step {
+use super::*;
 // serves: C02
 /// C02, per step: whose balance may go down, and under which allowance
 pub proof fn lemma_c02_step(s: Raw, t: Raw, sender: Seq<char>, b: &BlockInfo, msg: Cw20ExecuteMsg, x: Seq<char>)
@@ -1010,6 +1016,8 @@ pub proof fn lemma_c02_step(s: Raw, t: Raw, sender: Seq<char>, b: &BlockInfo, ms
         Cw20ExecuteMsg::UpdateMinter { new_minter } => { lemma_other_ns(s, ti_key(), tinfo(t)->Some_0.ser()); }
     }
 }
+} // mod m_c02_step
+pub use m_c02_step::*;
 /// "spender `sp` drew `amt` on owner `o`'s allowance": it existed, was unexpired and sufficient, and went down by exactly `amt`
 pub open spec fn drew(s: Raw, t: Raw, o: Seq<char>, sp: Seq<char>, amt: nat, b: &BlockInfo) -> bool {
     allow(s, o, sp) is Some && !allow(s, o, sp)->Some_0.expires.expired(b) && allow(s, o, sp)->Some_0.allowance@ >= amt
@@ -1032,6 +1040,8 @@ pub open spec fn draw_of(sender: Seq<char>, msg: Cw20ExecuteMsg, o: Seq<char>, s
     }
 }
 
+pub mod m_c02_allow {
+use super::*;
 // serves: C02
 /// C02, per step and per (owner, spender): what was drawn plus what is left never exceeds what was there plus what was granted;
 /// and the allowance changes only by the owner's increase/decrease or the spender's own draw
@@ -1106,6 +1116,8 @@ pub proof fn lemma_c02_allowance_step(s: Raw, t: Raw, sender: Seq<char>, b: &Blo
     }
 }
 
+} // mod m_c02_allow
+pub use m_c02_allow::*;
 // --------------------------------------------------------------------- histories
 /// one call of a history: who called, in which block, with what, and whether it succeeded (a failed call is rolled back, A1)
 pub struct Call { pub sender: Seq<char>, pub block: BlockInfo, pub msg: Cw20ExecuteMsg, pub ok: bool }
@@ -1156,6 +1168,8 @@ pub open spec fn minter_of(s: Raw) -> Option<Seq<char>> {
 }
 pub open spec fn cap_in(s: Raw) -> Option<Uint128> { match tinfo(s) { Some(ti) => cap_of(ti), None => None } }
 
+pub mod m_c13_step {
+use super::*;
 // serves: C13
 pub proof fn lemma_c13_step(s: Raw, t: Raw, sender: Seq<char>, b: &BlockInfo, msg: Cw20ExecuteMsg)
     requires inv(s), exec_post(s, t, sender, b, msg)
@@ -1194,6 +1208,8 @@ pub proof fn lemma_c13_step(s: Raw, t: Raw, sender: Seq<char>, b: &BlockInfo, ms
     }
 }
 
+} // mod m_c13_step
+pub use m_c13_step::*;
 // serves: C13
 /// once renounced the minter role never returns; while a minter exists the cap is the one fixed at instantiation; the supply never exceeds it
 pub proof fn lemma_c13_history(st: Seq<Raw>, calls: Seq<Call>, i: int, j: int)
